@@ -152,6 +152,10 @@ var unsafeName = regexp.MustCompile(`[^A-Za-z0-9_.-]+`)
 
 // Finish applies floors and known findings, prints the verdict lines, writes
 // evidence and replay files, and returns the process exit code.
+// DryRun makes Finish print a one-line machine-readable verdict instead of writing evidence and replay files
+// (used for the source variants of the thorough tier).
+var DryRun bool
+
 func (r *Result) Finish(verifDir, tier string, seed int64, start time.Time, findings []Finding, extra map[string]interface{}) int {
 	// floors
 	counts := map[string]int{}
@@ -214,6 +218,24 @@ func (r *Result) Finish(verifDir, tier string, seed int64, start time.Time, find
 	}
 
 	exit := 0
+	if DryRun {
+		d := struct {
+			Exit     int      `json:"exit"`
+			Violated []string `json:"violated"`
+			Broken   []string `json:"broken"`
+		}{Violated: []string{}, Broken: r.Broken}
+		for _, o := range viol {
+			d.Violated = append(d.Violated, o.Key())
+		}
+		if len(viol) > 0 {
+			d.Exit = 1
+		} else if len(r.Broken) > 0 {
+			d.Exit = 2
+		}
+		b, _ := json.Marshal(d)
+		fmt.Printf("DRY %s\n", b)
+		return d.Exit
+	}
 	os.MkdirAll(filepath.Join(verifDir, "replay"), 0o755)
 	os.MkdirAll(filepath.Join(verifDir, "evidence"), 0o755)
 	for _, o := range knownHit {
